@@ -9,6 +9,7 @@ the implementation's own variables):
 
 MODULES = {"Fusion": "teaal/ir/fusion.py"}
 CLASS_NAMES = ["FunctionalComponent"]
+# Hardware.get_components is declared (and verified) in contracts/hardware.py, loaded before this sidecar
 
 OBJ_CLASSES = {
     "Fusion": {
@@ -73,7 +74,6 @@ CONTRACTS = {
     "LoopOrder.get_ranks": dict(params=["self"], returns="List[str]", **_OBS),
     "Program.get_spacetime": dict(params=["self"], returns="Optional[SpaceTime]", **_OBS),
     "SpaceTime.get_space": dict(params=["self"], returns="List[str]", **_OBS),
-    "Hardware.get_components": dict(params=["self", "einsum", "class_"], returns="List[Component]", **_OBS),
     "Hardware.get_config": dict(params=["self", "einsum"], returns="str", **_OBS),
     "Component.get_name": dict(params=["self"], returns="str", **_OBS),
     "Component.get_bindings": dict(params=["self"], returns="Dict[str, List[Any]]", **_OBS),
@@ -147,8 +147,14 @@ CONTRACTS = {
 
 # ---------------------------------------------------------------- native side (refuter / replay)
 def native_globals():
-    from teaal.ir.component import FunctionalComponent
-    return {"FunctionalComponent": FunctionalComponent}
+    # "functional component" as DECLARED in contracts/hardware.py (not as the repository's class statement says): the
+    # native evaluation of U_of then does not follow a re-parented class
+    import teaal.ir.component as comp
+    from contracts.hardware import _HIER
+
+    def descends(c):
+        return c == "FunctionalComponent" or any(descends(b) for b in _HIER.get(c, []))
+    return {"FunctionalComponent": tuple(getattr(comp, c) for c in sorted(_HIER) if descends(c) and hasattr(comp, c))}
 
 
 _ST = {"N": ("[N]", "[M, K]"), "K": ("[K]", "[M, N]"), "none": ("[]", "[M, K, N]")}
@@ -176,7 +182,8 @@ def _yaml(history):
           "        format: C\n        pbits: 32\n")
     y += ("architecture:\n  configA:\n  - name: System\n    local:\n    - name: FPMul0\n      class: compute\n"
           "      attributes:\n        type: mul\n    - name: FPMul1\n      class: compute\n      attributes:\n"
-          "        type: mul\n  configB:\n  - name: System\n    local:\n    - name: FPMul0\n      class: compute\n"
+          "        type: mul\n    - name: Seq0\n      class: Sequencer\n      attributes:\n        num_ranks: 3\n"
+          "  configB:\n  - name: System\n    local:\n    - name: FPMul0\n      class: compute\n"
           "      attributes:\n        type: mul\n    - name: FPMul1\n      class: compute\n      attributes:\n"
           "        type: mul\n")
     y += "bindings:\n"
@@ -184,6 +191,9 @@ def _yaml(history):
         y += "  %s:\n  - config: config%s\n    prefix: tmp/%s\n" % (n, cfg, n)
         if comp == "e0":
             y += "  - component: FPMul0\n    bindings: []\n"
+        elif comp == "s":
+            # a sequencer (a functional component that is neither compute nor intersector), only in configA
+            y += "  - component: Seq0\n    bindings:\n    - rank: K\n"
         else:
             for c in comp:
                 y += "  - component: FPMul%s\n    bindings:\n    - op: mul\n" % c
@@ -193,7 +203,7 @@ def _yaml(history):
 def _histories(maxlen=3):
     """decisive small histories first: one config, then everything of length <= 2"""
     import itertools
-    core = [("A", st, comp, lo) for st in ("N", "none") for comp in ("", "0", "e0", "1") for lo in ("MKN", "KMN")]
+    core = [("A", st, comp, lo) for st in ("N", "none") for comp in ("", "0", "e0", "1", "s") for lo in ("MKN", "KMN")]
     full = [(cfg, st, comp, lo) for cfg in "AB" for st in ("N", "K", "none") for comp in ("", "0", "1", "01", "e0")
             for lo in ("MKN", "KMN")]
     seen = set()
